@@ -1,6 +1,6 @@
 (* C08: pause / delete / clear stop the consumption of fire times; resume re-bases. *)
 From Coq Require Import ZArith List Bool String Lia.
-Require Import QzSched.Gen.Params QzSched.SchedModel QzSched.Registry QzSched.ApiProofs QzSched.FetchProofs
+Require Import QzSched.Gen.Params QzSched.SchedModel QzSched.Registry QzSched.ApiProofs QzSched.WfProofs QzSched.FetchProofs
                QzSched.LtsDefs QzSched.LtsProofs.
 Import ListNotations.
 Open Scope Z_scope.
